@@ -371,9 +371,13 @@ def equiv(l, o, exp, pre=""):
         return out
     if isinstance(o, Kind):
         k = o.kind
-        if k in ("npint", "npfloat", "npbool"):
+        if k in ("npint", "npfloat", "npbool", "npcomplex"):
             # NumPy scalars are compared by numeric value
-            ok = isinstance(l, Sym) and not z3.is_string(l.t) or isinstance(l, Kind) and l.kind == k
+            if isinstance(l, Kind) and l.kind == "ndarray" and l.payload["shape"] == ():
+                # came back as a 0-d array holding the scalar's value
+                add("numeric-value", cm.data_norm(l.payload["data"]) == ("np0", id(o)))
+                return out
+            ok = (isinstance(l, Sym) and not z3.is_string(l.t) or isinstance(l, Kind) and l.kind == k) and k != "npcomplex"
             add("numeric", ok)
             if ok:
                 lv = l if isinstance(l, Sym) else l.payload["v"]
@@ -1952,15 +1956,41 @@ BATCH = 40
 
 
 def _pool_map(fn, tasks):
-    """bounded stand-ins run their real save/load round trips in a few forked worker processes"""
-    import multiprocessing as mp
+    """bounded stand-ins run their real save/load round trips in a few forked children (plain os.fork: the check's own
+    worker processes are daemonic and may not own a multiprocessing pool)"""
+    import pickle
 
-    _tmpdir()  # parent owns (and finally removes) the scratch root
+    root = _tmpdir()  # this process owns (and finally removes) the scratch root
     nproc = int(os.environ.get("VERIF_BOUNDED_JOBS", "0") or 0) or min(8, max(1, (os.cpu_count() or 2) // 2))
+    nproc = min(nproc, len(tasks))
     if nproc <= 1 or len(tasks) < 4:
         return [fn(t) for t in tasks]
-    with mp.get_context("fork").Pool(nproc) as pool:
-        return pool.map(fn, tasks, chunksize=1)
+    pids = []
+    for w in range(nproc):
+        out = os.path.join(root, f"part{w}.pkl")
+        pid = os.fork()
+        if pid == 0:
+            code = 0
+            try:
+                res = [(i, fn(tasks[i])) for i in range(w, len(tasks), nproc)]
+                with open(out, "wb") as f:
+                    pickle.dump(res, f)
+            except BaseException as e:  # the parent re-runs the missing tasks itself
+                code = 1
+            finally:
+                os._exit(code)
+        pids.append((pid, out))
+    results = {}
+    for pid, out in pids:
+        os.waitpid(pid, 0)
+        if os.path.exists(out):
+            try:
+                with open(out, "rb") as f:
+                    results.update(dict(pickle.load(f)))
+            except Exception:
+                pass
+            os.unlink(out)
+    return [results[i] if i in results else fn(tasks[i]) for i in range(len(tasks))]
 
 
 def _grammar_task(t):
@@ -2228,6 +2258,9 @@ def conc_load(ev):
     return dict(store=pk("store", ["zip", "dir"]), pathform=pk("pathform", ["str", "Path"] if not MODE["skip"] else ["str"]),
                 save_skipform=pk("save_skipform", skip_forms()), load_skipform=pk("load_skipform", skip_forms()))
 
+
+for _c in CONTRACTS:
+    _c.canary_path_limit = 16  # vacuity canary: the first 16 paths (of up to several hundred) are re-run with falsified postconditions
 
 for _i, _c in enumerate(C_SAVES):
     _c.concretize, _c.rt = functools.partial(conc_save, part=(_i, 2)), rt_save
